@@ -7,10 +7,10 @@ RULE = ('generated charts whose handlers post fifo/lifo at reactions and at entr
         'snapshot per step; the signal of the first handler invocation of every step must equal the front of a collections.deque '
         'model driven by the same operation history (external posts, handler posts taken from the ground-truth log), the queue '
         'length must match after every step and no step may run when the model queue is empty. complete_circuit is exercised '
-        'separately per case. distinct_nontrivial = distinct (host, steps, handler posts, lifo share) tuples with >= 1 handler post')
+        'separately per case; in a third of these runs some of the posted events make their step FAIL (the handler raises): the client catches the exception and keeps calling complete_circuit / next_rtc, and every event - the failed ones too - must have been dispatched exactly once, in deque order. distinct_nontrivial = distinct (host, steps, handler posts, lifo share) tuples with >= 1 handler post')
 CASES = {'quick': 3000, 'thorough': 200000}
 BUDGET = {'quick': 150, 'thorough': 300}
-REQUIRE = {'steps': 20000, 'handler_posts': 2000, 'complete_circuit_runs': 500}
+REQUIRE = {'steps': 20000, 'handler_posts': 2000, 'complete_circuit_runs': 500, 'steps_that_failed_and_were_survived': 300}
 ASSUME = ['queue capacity (500) is not reached (overflow is C16)']
 ENGINE = 'chartgen+model'
 
@@ -42,11 +42,17 @@ def complete_circuit_case(ctx, n):
   run = cg.Run(spec, spied=rng.random() < 0.5)
   base = cg.counted_host(HsmWithQueues, run)
 
+  class StepFails(Exception):
+    """raised by the step of a VT_FAULT event (a handler that fails); the client catches it and keeps driving the chart"""
+
   class H(base):
     def dispatch(self, e):
       run.log.append(('dispatch', e.signal_name))
+      if e.signal_name == 'VT_FAULT':
+        raise StepFails()
       base.dispatch(self, e)
   chart = H(instrumented=rng.random() < 0.5)
+  faulty = rng.random() < 0.35
   model = collections.deque()
   try:
     chart.start_at(run.fns[rng.randrange(spec['n'])])
@@ -54,16 +60,29 @@ def complete_circuit_case(ctx, n):
     return
   ops = []
   for _ in range(rng.randint(1, 8)):
-    kind, sig = rng.choice(['fifo', 'lifo']), rng.choice(spec['sigs'])
+    kind, sig = rng.choice(['fifo', 'lifo']), rng.choice(spec['sigs'] + (['VT_FAULT', 'VT_FAULT'] if faulty else []))
     ops.append((kind, sig))
     run.log.append(('act', 'post_' + kind, sig))
     (chart.post_fifo if kind == 'fifo' else chart.post_lifo)(Event(signal=sig))
+  use_next_rtc = faulty and rng.random() < 0.5
+  failed_steps = 0
   try:
-    chart.complete_circuit()
+    for attempt in range(40):
+      try:
+        if use_next_rtc:
+          while len(chart.queue) != 0:
+            chart.next_rtc()
+        else:
+          chart.complete_circuit()
+        break
+      except StepFails:
+        failed_steps += 1           # the client catches the failure of that step and keeps driving the chart
   except cg.Budget:
     ctx.count('complete_circuit_budget')
     return
   ctx.count('complete_circuit_runs')
+  if failed_steps:
+    ctx.count('steps_that_failed_and_were_survived', failed_steps)
   wit = {'spec': spec, 'ops': ops}
   nd = 0
   for r in run.log:
